@@ -66,9 +66,10 @@ public:
         assert (this != chain.load(std::memory_order_relaxed));
         //release memory order because we need to other thread to see change of _next
         //this is last operation of this thread with awaiter
-        while (!chain.compare_exchange_weak(_next, this, std::memory_order_release));
-
-        assert (_next != this);
+        while (!chain.compare_exchange_weak(_next, this, std::memory_order_release)) {
+            //checked before the awaiter is published, afterwards it belongs to the thread which collects the chain
+            assert (_next != this);
+        }
     }
     ///releases chain atomicaly
     /**
